@@ -245,8 +245,33 @@ def coq_files():
     return sorted(fs)
 
 
+def gen_extract():
+    """coq/Extract/Extract.v is assembled from coq/Extract/roots.d/*.txt"""
+    d = os.path.join(COQ, "Extract", "roots.d")
+    mods, roots = [], []
+    for f in sorted(os.listdir(d)):
+        for line in open(os.path.join(d, f)):
+            line = line.strip()
+            if line.startswith("module:"):
+                for m in line[7:].split():
+                    if m not in mods:
+                        mods.append(m)
+            elif line.startswith("root:"):
+                for r in line[5:].split():
+                    if r not in roots:
+                        roots.append(r)
+    txt = ("(* GENERATED from Extract/roots.d/*.txt -- extraction of the executable model for the\n"
+           "   correspondence driver.  ExtrOcamlBasic only; numbers stay the extracted inductive types. *)\n"
+           "Require Import ExtrOcamlBasic.\n"
+           "From JoseV Require Import %s.\n"
+           "Extraction \"../ocaml/_gen/model.ml\"\n  %s.\n" % (" ".join(mods), "\n  ".join(roots)))
+    write_if_changed(os.path.join(COQ, "Extract", "Extract.v"), txt)
+
+
 def coq_make(targets, timeout=3000):
     """Full .vo build of targets. Returns (ok, log)."""
+    gen_extract()
+    os.makedirs(os.path.join(ROOT, "ocaml", "_gen"), exist_ok=True)
     mk = sh(["coq_makefile", "-f", "_CoqProject"] + coq_files() + ["-o", "Makefile"], cwd=COQ)
     if mk.returncode != 0:
         return False, mk.stdout
@@ -306,8 +331,10 @@ def build_driver():
     if not ok:
         return None, lg
     ml = os.path.join(gen, "model.ml")
-    drv = os.path.join(ROOT, "ocaml", "driver.ml")
-    key = tree_hash([ml, os.path.join(gen, "model.mli"), drv])
+    odir = os.path.join(ROOT, "ocaml")
+    mods = sorted(f for f in os.listdir(odir) if f.startswith("d_") and f.endswith(".ml"))
+    srcs = [os.path.join(odir, "dcore.ml")] + [os.path.join(odir, m) for m in mods] + [os.path.join(odir, "driver.ml")]
+    key = tree_hash([ml, os.path.join(gen, "model.mli")] + srcs)
     exe = os.path.join(WORK, "driver")
     stamp = exe + ".stamp"
     if os.path.exists(exe) and os.path.exists(stamp) and open(stamp).read() == key:
@@ -317,10 +344,12 @@ def build_driver():
     os.makedirs(bd)
     for f in ("model.ml", "model.mli"):
         shutil.copy(os.path.join(gen, f), bd)
-    shutil.copy(drv, bd)
-    r = sh(["ocamlfind", "ocamlopt", "-O3", "-w", "-a", "-package", "str", "-linkpkg", "model.mli", "model.ml", "driver.ml", "-o", exe], cwd=bd)
+    for f in srcs:
+        shutil.copy(f, bd)
+    files = ["model.mli", "model.ml", "dcore.ml"] + mods + ["driver.ml"]
+    r = sh(["ocamlfind", "ocamlopt", "-O3", "-w", "-a", "-package", "str", "-linkpkg"] + files + ["-o", exe], cwd=bd)
     if r.returncode != 0:
-        r = sh(["ocamlfind", "ocamlopt", "-w", "-a", "-package", "str", "-linkpkg", "model.mli", "model.ml", "driver.ml", "-o", exe], cwd=bd)
+        r = sh(["ocamlfind", "ocamlopt", "-w", "-a", "-package", "str", "-linkpkg"] + files + ["-o", exe], cwd=bd)
     if r.returncode != 0:
         return None, r.stdout
     open(stamp, "w").write(key)
